@@ -120,7 +120,7 @@ impl Property for GramProp {
         match self.id {
             "C12" => "cases: programs derived from the construct grammar (DESIGN 4.6) from a random choice stream, 1-6 statements, nesting depth <= 6; oracle: no error, end-of-input configuration (hook) is the initial one, in the debug-assertion and the optimized build, with and without macro_sep; plus the statement-complete real-world programs (whole and in ordered pairs); distinct = distinct program text; non-trivial = some construct is nested at least two levels inside a statement (call in argument, call in string, expression in a statement head, statement in a %do/%macro body)".into(),
             "C13" => "cases: construct-grammar programs with recorded marks (delimiters, masked delimiters, operators, integer operands, insignificant gaps); oracle on programs that lex without error: every mark is honoured; plus the sweep 'gap after/before a delimiter token is insignificant' on grammar and real-world programs; distinct = distinct program text (or program + insertion); non-trivial = the program has at least one masked delimiter and at least one real delimiter (sweep cases: the program has a macro token)".into(),
-            _ => "cases: a construct-grammar program plus one uniformly chosen deletable mandatory delimiter ('=' of %let / iterative %do, '(' after an argument-taking built-in / %while / %until / %syscall, ',' after the first %scan/%substr argument (two-argument form), '/' of %copy, ';' after %end / %return / %do %while|%until(...), ';' of a free-text statement (%put / %let / %sysexec) directly before another macro statement), or truncation directly before a call's ')', or a cut at a point inside open call parentheses (then every '(' still open - the call's own, nested groups in argument text, expression parentheses, also below an unterminated string expression - must get its zero-width ')' at end of input; a quarter of these cuts are preceded by a closed statement that has a diagnosed fault of its own); oracle: matching 'missing expected' error and zero-width recovery token(s) at the expected offset, and no other 'missing expected' error anywhere (every case is one fault); distinct = distinct mutated text".into(),
+            _ => "cases: a construct-grammar program plus one uniformly chosen deletable mandatory delimiter ('=' of %let / iterative %do, '(' after an argument-taking built-in / %while / %until / %syscall, ',' after the first %scan/%substr argument (two-argument form), '/' of %copy, ';' after %end / %return / %do %while|%until(...), ';' of a free-text statement (%put / %let / %sysexec) directly before another macro statement), (a fifth of the '=' '(' ',' '/' cases instead cut the program right before the delimiter: its error and zero-width token are then expected together at end of input, after the last significant character), or truncation directly before a call's ')', or a cut at a point inside open call parentheses (then every '(' still open - the call's own, nested groups in argument text, expression parentheses, also below an unterminated string expression - must get its zero-width ')' at end of input; a quarter of these cuts are preceded by a closed statement that has a diagnosed fault of its own); oracle: matching 'missing expected' error and zero-width recovery token(s) at the expected offset, and no other 'missing expected' error anywhere (every case is one fault); distinct = distinct mutated text".into(),
         }
     }
     fn stream_len(&self) -> usize {
@@ -250,6 +250,41 @@ fn ceil(s: &str, mut i: usize) -> usize {
     i
 }
 
+/// C14, end-of-input form: the program is cut right before a mandatory delimiter (the delimiter and all that
+/// follows it are left out). The delimiter is then expected at end of input: its error must be reported and its
+/// zero-width recovery token emitted at the same place, somewhere between the end of the last significant
+/// character and the end of input (whitespace and comments may precede it).
+fn check_c14_cut(g: &G, d: &crate::gen::gram::Deletable, mut vd: Verdict) -> Verdict {
+    let m = g.out[..d.off].to_string();
+    let mut sig = m.trim_end();
+    while sig.ends_with("*/") {
+        match sig.rfind("/*") {
+            Some(p) => sig = sig[..p].trim_end(),
+            None => break,
+        }
+    }
+    let lo = sig.len();
+    vd.key = format!("{m}\u{241e}cut");
+    vd.label(format!("cut-before:{}:{}", d.tok, d.err));
+    let r = match lex(Variant::Rel, &m) {
+        Lexed::Ok(r) if !r.verif.budget_exceeded => r,
+        _ => {
+            vd.discard = Some("no result (C01 territory)");
+            return vd;
+        }
+    };
+    let show = format!("{}⟦end of input; {} expected⟧", &m[floor(&m, m.len().saturating_sub(40))..], d.tok);
+    match r.errs.iter().find(|e| format!("{:?}", e.k) == d.err && (e.b as usize) >= lo && (e.b as usize) <= m.len()) {
+        None => vd.violations.push(Violation::new("C14", "not-diagnosed", format!("not-diagnosed:{}:cut", d.err), format!("expected {} at end of input (bytes {lo}..={}): {show}; errors: {:?}", d.err, m.len(), r.errs.iter().map(|e| (e.k, e.b)).collect::<Vec<_>>()))),
+        Some(e) => {
+            if !r.toks.iter().any(|t| tname(t.t) == d.tok && t.b == e.b && t.e == e.b) {
+                vd.violations.push(Violation::new("C14", "no-recovery-token", format!("no-recovery-token:{}:cut", d.tok), format!("expected zero-width {} at byte {}: {show}", d.tok, e.b)));
+            }
+        }
+    }
+    vd
+}
+
 fn check_c14(g: &G, sel: u64, mut vd: Verdict) -> Verdict {
     let src = &g.out;
     // the closing parentheses of calls / definitions: truncating right before one leaves a ')' open at end of input
@@ -324,6 +359,9 @@ fn check_c14(g: &G, sel: u64, mut vd: Verdict) -> Verdict {
         return vd;
     }
     let d = g.dels[pick].clone();
+    if d.tok != "SEMI" && d.tok != "RPAREN" && (sel / 2) % 5 == 0 {
+        return check_c14_cut(g, &d, vd);
+    }
     let b = src.as_bytes();
     if d.tok == "ASSIGN" {
         // generator precondition: a name that ends in an argument-less call, followed (after the missing '=') by '(':
